@@ -3,10 +3,13 @@
 //! servers (accept loop, auto protocol detection, TLS acceptor, graceful shutdown) through hyper,
 //! h2 and rustls, over the simulated network. Mode `e2e` decides C01 (and feeds C13 / C17).
 
+pub mod grammar;
 pub mod infra;
 pub mod shutdown;
 pub mod sniff;
 pub mod srvfault;
+pub mod tlsmode;
+pub mod wire;
 
 use std::collections::BTreeMap;
 use std::sync::Arc;
